@@ -914,8 +914,16 @@ static void gen_expr(Node *node) {
 #ifdef CHIBICC_VERIF
     verif_stmt_expr_depth++;
 #endif
-    for (Node *n = node->body; n; n = n->next)
-      gen_stmt(n);
+    for (Node *n = node->body; n; n = n->next) {
+      // The value of the last expression statement is the value of
+      // the whole statement expression: it must not be discarded.
+      if (!n->next && n->kind == ND_EXPR_STMT) {
+        println("  .loc %d %d", n->tok->file->file_no, n->tok->line_no);
+        gen_expr(n->lhs);
+      } else {
+        gen_stmt(n);
+      }
+    }
 #ifdef CHIBICC_VERIF
     verif_stmt_expr_depth--;
 #endif
